@@ -615,3 +615,162 @@ def show_lin(l):
     if l[1] or not parts:
         parts.append(str(l[1]))
     return ' + '.join(parts)
+
+
+# ------------------------------------------------------------------ W-PAIR: a container header travels with the bytes it was read from
+
+def _pair_family(f):
+    """{function: [(header param, slice param, offset param | None)]} for crate functions that take a container header word next to the
+    bytes it describes (`header: u32, value: &[u8]`; `left_header` with `left`; `arr_header` with `arr`)."""
+    from rules.parsers import _param_names
+    fam = {}
+    for p, b in f.bodies.items():
+        if b.kind == 'Promoted' or '::{closure' in p:
+            continue
+        names = _param_names(b)
+        hs = [k for k in range(1, b.argc + 1) if b.local_ty(k).get('s') == 'u32' and (names.get(k) or '').endswith('header')]
+        ss = [k for k in range(1, b.argc + 1) if '[u8]' in str(b.local_ty(k).get('s')) and b.local_ty(k).get('k') == 'ref']
+        offs = [k for k in range(1, b.argc + 1) if b.local_ty(k).get('s') == 'usize' and (names.get(k) or '') in ('offset', 'value_offset')]
+        out = []
+        for h in hs:
+            pre = names[h][:-len('header')].rstrip('_')
+            cand = [s for s in ss if (names.get(s) or '') == pre] if pre else []
+            if not cand and len(ss) == 1 and len(hs) == 1:
+                cand = ss
+            if not cand and not pre and len(hs) == 1 and ss:
+                cand = ss[:1]
+            if cand:
+                out.append((h, cand[0], offs[0] if len(offs) == 1 and len(hs) == 1 else None))
+        if out:
+            fam[p] = out
+    return fam
+
+
+def _slice_root(t):
+    """(root term, offset term | 0 | None) of a byte-slice value: S, &S[o..], &S[o..e]; offset None = not read"""
+    t = deref_all(t)
+    if is_call(t, 'Index::index', 'index::index') and len(t[2]) == 2:
+        r = deref_all(t[2][1])
+        if agg_variant(r) and r[1][1].split('::')[-1] in ('RangeFrom', 'Range') and r[2]:
+            root, o = _slice_root(t[2][0])
+            if o == 0:
+                return root, strip_casts(r[2][0])
+            return root, None
+        if agg_variant(r) and r[1][1].split('::')[-1] in ('RangeTo', 'RangeToInclusive', 'RangeFull'):
+            return _slice_root(t[2][0])
+        return deref_all(t[2][0]), None
+    return t, 0
+
+
+def _header_source(t):
+    """(S, o) when the header word is read_u32(S, o) (through `?`, ok(), unwrap_or_default()); None otherwise"""
+    t = deref_all(strip_casts(t))
+    for _ in range(6):
+        x, _chain = unwrap_ok(t)
+        x = deref_all(x)
+        if is_call(x, 'Result::unwrap_or_default', 'Result::unwrap_or', 'Result::unwrap', 'Result::expect', 'Option::unwrap', 'Option::expect') and x[2]:
+            t = x[2][0]
+            continue
+        t = x
+        break
+    if is_call(t, 'functions::read_u32') and len(t[2]) == 2:
+        return deref_all(t[2][0]), strip_casts(t[2][1])
+    return None
+
+
+def w_pair(ctx, run, rule='R05.14', only=None, floor=None):
+    """Every call that hands a header word together with the bytes it describes (iterate_array(value, header), strip_nulls_array(header,
+    value), compare_array(left_header, left, ..), get_jentry_by_name(value, offset, header, ..)) must pass a header that was read from
+    those very bytes: read_u32(V, 0) for the slice V (or V = S[4..] / S[o..] and read_u32(S, o)), or the caller's own (header, bytes)
+    parameter pair.  A header of one container with the bytes of another walks the wrong number of entries at the wrong offsets."""
+    f = ctx.facts
+    fam = _pair_family(f)
+    n_ok = 0
+    for p, b in sorted(f.bodies.items()):
+        if b.kind == 'Promoted' or (only is not None and not only(p)):
+            continue
+        callees = {t['callee'].get('resolved') or t['callee'].get('full', '') for _, t in b.calls()}
+        if not any(called(c, *fam) for c in callees if c):
+            continue
+        from rules.editing import region_paths
+        paths, loops = region_paths(b)
+        entry_store = {}
+        for q in Explorer(b, max_paths=4000).explore(start=0, stop=set(loops)):
+            for k, v in q.store.items():
+                entry_store.setdefault(k, []).append(v)
+        own = fam.get(p.split('::{closure')[0]) if '::{closure' not in p else None
+
+        def resolve_header(h, depth=0):
+            """-> ('read', S, o) | ('param', slice param term, offset) | None"""
+            src = _header_source(h)
+            if src is not None:
+                return ('read',) + src
+            t = deref_all(strip_casts(h))
+            if t[0] == 'loc' and len(t) > 2:
+                t = deref_all(t[2])
+            if t[0] == 'init' and own:
+                for (hk, sk, ok_) in own:
+                    if t[1] == hk:
+                        return ('param', ('init', sk, b.name_of(sk)), ('init', ok_, b.name_of(ok_)) if ok_ else 0)
+            if t[0] in ('init', 'hav') and depth < 2 and isinstance(t[1], int) and t[1] > b.argc:
+                vals = entry_store.get(t[1]) or entry_store.get(('L', t[1])) or []
+                rs = {repr(resolve_header(v, depth + 1)) for v in vals if isinstance(v, tuple)}
+                if len(rs) == 1 and vals:
+                    return resolve_header(vals[0], depth + 1)
+            return None
+
+        seen = set()
+        good = bad = 0
+        unk = []
+        for q in paths:
+            for e in q.calls():
+                tg = [g_ for g_ in fam if called(e[1], g_)]
+                if len(tg) != 1:
+                    continue
+                for (hk, sk, ok_) in fam[tg[0]]:
+                    if max(hk, sk) - 1 >= len(e[2]):
+                        continue
+                    ha, sa = e[2][hk - 1], e[2][sk - 1]
+                    key = (tg[0], hk, show(ha), show(sa))
+                    if key in seen:
+                        continue
+                    seen.add(key)
+                    short = tg[0].split('::')[-1]
+                    r = resolve_header(ha)
+                    vroot, voff = _slice_root(sa)
+                    if r is None:
+                        unk.append(f'{short}: header {show(ha)[:40]}')
+                        continue
+                    S = deref_all(r[1])
+
+                    def settle(t, depth=0):
+                        """a local carried into a loop region stands for whatever it held at the loop entry"""
+                        if t[0] in ('init', 'hav') and isinstance(t[1], int) and t[1] > b.argc and depth < 3:
+                            vals = [v for v in (entry_store.get(t[1]) or []) if isinstance(v, tuple)]
+                            roots = {repr(_slice_root(v)[0]) for v in vals}
+                            if vals and len(roots) == 1:
+                                return settle(_slice_root(vals[0])[0], depth + 1)
+                            return None
+                        return t
+                    S, vroot = settle(S), settle(vroot)
+                    if S is None or vroot is None:
+                        unk.append(f'{short}: header / bytes held in a local whose origin this rule does not read')
+                        continue
+                    same_root = (S[:2] == vroot[:2]) if S[0] == 'init' and vroot[0] == 'init' else (S == vroot)
+                    if same_root:
+                        good += 1          # same bytes; which offset of them the callee starts at is its W-INIT obligation
+                        continue
+                    # different values: is one of them a part of the other that this rule does not read?
+                    if any(s_ == S or (S[0] == 'init' and s_[:2] == S[:2]) for s_ in subterms(vroot)) or any(s_ == vroot or (vroot[0] == 'init' and s_[:2] == vroot[:2]) for s_ in subterms(S)):
+                        unk.append(f'{short}: header of {show(S)[:30]} with bytes {show(vroot)[:30]}')
+                        continue
+                    bad += 1
+                    run.violation(rule, p, f'header-of-other-bytes[{short}]', f'{short} is called with the header word of `{show(S)[:60]}` and the bytes `{show(vroot)[:60]}`: the callee counts and '
+                                  f'locates the entries of one container with the header of another', f'{b.file}:{b.line}')
+        if unk and not bad:
+            run.undecided(rule, p, 'header-pairs', f'{len(unk)} call(s) pass a header whose origin this rule does not read ({unk[0]}): not decided', f'{b.file}:{b.line}')
+        elif good and not bad:
+            run.proved(rule, p, 'header-pairs', f'{good} call(s) pass a header read from the very bytes it is passed with', f'{b.file}:{b.line}')
+        n_ok += good
+    if floor is not None:
+        run.floor(rule, 'calls passing a (header, bytes) pair', n_ok, floor)
